@@ -17,7 +17,7 @@ from crverif.core import (HOME, REPO, Ctx, Discard, HarnessError, Violation, buc
                           normalise, short)
 
 NPROC = int(os.environ.get("VERIF_NPROC", "16"))
-MAX_ROUNDS = 4
+MAX_ROUNDS = int(os.environ.get("VERIF_MAX_ROUNDS", "4"))
 
 
 class CaseFailed(Exception):
